@@ -57,6 +57,10 @@ def rawWrite (t : TS) (es : List E) : Option TS :=
 def stepTree (t : TS) (cmd : String) (a : List (String × String)) : Option TS := do
   if cmd == "rawwrite" then
     return ← ((arg a "es").bind parseEntries).bind (rawWrite t)
+  if cmd == "bumpctr" then
+    -- state builder: `n` sequence numbers were drawn from the shared counter and are not (yet) published:
+    -- the allocating counter runs ahead of the visible one (writers in flight)
+    return ← (natArg a "n").map (fun n => { t with seqCtr := t.seqCtr + n })
   let op : Op BK ← (match cmd with
     | "write" => (arg a "es").bind parseEntries |>.map Op.write
     | "rotate" => (natArg a "mem").map Op.rotate
